@@ -18,6 +18,21 @@ DESC = {
    note="Bounded model checking: exhaustive only within the stated constants; trusts the harness concretiser/projector tables, the VerifDump hook, TLC and the CommunityModules Json/IOUtils."),
 }
 
+NOTE_SM = "Bounded model checking: exhaustive only within the stated constants; trusts the harness concretiser/projector tables, the VerifDump hook, TLC and the CommunityModules Json/IOUtils."
+FR = (" + reflection sweep over every exported method of Stack and Condition with each recorded call validated by the frame rules of spec/Frame.tla")
+
+def sm(pid, text, frame=False):
+    DESC[pid] = dict(technique=SM + (FR if frame else ""), design_ref="DESIGN.md section 4 " + pid, text=text, note=NOTE_SM)
+
+sm("C03", "Capacity as a TLC invariant (CapInv, CapObs) over all growth actions - Push batches, Insert, Transfer-into, Marshal-into - interleaved with Pop/Remove/Reset, for capacities 1-4 and lengths up to 4, both handles of a Transfer; every transition / path to depth 2-3 / random walk replayed on real Stacks with Len, Cap, Avail, IsFull and the raw slots compared after each step; random boundary-seeking histories validated as traces.")
+sm("C08", "Every method taking an int x every index in -(L+1)..L+1 plus MinInt/MaxInt x lengths 0-4 x the four index-option sets enumerated by TLC (IdxMode=all) and replayed with a post-call re-validation of IsInit, Kind, Len, every Index, the configuration record and the raw slots; every method with an any / ...any / Operator parameter (found by reflection) x 38 awkward Go values, each followed by a usability probe, validated by Frame.tla's AwkwardRule (no panic, receiver still usable).", frame=True)
+sm("C09", "ReadOnlyFrame checked by TLC on every enabled transition of the state machine started read-only (all call families); tables and traces replayed on the real Stack; every exported method of Stack and Condition (reflection) called on read-only receivers singly and in random sequences of 2-4, each event validated by Frame.tla's ReadOnlyRule against a deep VerifDump snapshot; afterwards the flag is cleared (snapshot must equal the one at flag-set time) and a setter must take effect again.", frame=True)
+sm("C13", "NoNestPush and option/content independence checked by TLC; push batches over {nil, leaf, native Stack, alias, pointer-to-alias, Condition} interleaved with set/clear/toggle of no-nesting on every kind replayed on real Stacks (content, CanNest, IsNesting, raw option bits).")
+sm("C14", "PolicyDecides checked by TLC over all batches of length 1-3 against every accept-set (8 subsets) with and without capacity; the installed Go closure records its consult log, which is compared (count and order) together with content and Err() after every step.")
+sm("C15", "TransferFrame checked by TLC over a two-handle state machine (source length 0-4 with nil elements, LIFO/FIFO; destination length 0-4, capacity none or 1-5, read-only / zero / no-nesting destinations; destination given as native, alias, pointer or foreign value); both handles observed in full after every replayed step.")
+sm("C17", "Lifecycle (zero / live / freed) in the state machine: Inert checked by TLC on every transition from the dead state, Free and Reset semantics; every exported method (reflection) called on zero and freed Stacks and Conditions with plain and awkward arguments, each event validated by Frame.tla's InertRule (no panic, no resurrection except Marshal/Init, zero results except the documented sentinels).", frame=True)
+sm("C18", "OptIndependence and the FIFO latch checked by TLC; exhaustive sequences of {set, clear, toggle} x 8 options to depth 3 (quick) / 4 (thorough) replayed with raw option bits (verif hook) and getters compared; ID, category, delimiter (LIST only), symbol (non-LIST only), encapsulation pairs (duplicate characters refused) in a second instance; random mixed sequences validated as traces.")
+
 def main():
     commits = subprocess.run(["git", "-C", "/repo", "log", "--format=%h %s", "--grep=^verif:"],
                              stdout=subprocess.PIPE, text=True).stdout.strip().splitlines()
